@@ -297,6 +297,12 @@ func suiteC06(s *Suite, rng *Rng, tier string) {
 						deviate("sig.A+1", mk(func(m *gabi.IssueSignatureMessage) { m.Signature.A.Add(m.Signature.A, bi(1)) }), run.attrs, b, run)
 						deviate("sig.V+1", mk(func(m *gabi.IssueSignatureMessage) { m.Signature.V.Add(m.Signature.V, bi(1)) }), run.attrs, b, run)
 						deviate("sig.E+2", mk(func(m *gabi.IssueSignatureMessage) { m.Signature.E.Add(m.Signature.E, bi(2)) }), run.attrs, b, run)
+						// the same residue in another representation: A + N, A + 2N, A - N (the hash in the proof of correctness
+						// and the stored credential would differ from what the issuer signed and sent)
+						deviate("sig.A+N", mk(func(m *gabi.IssueSignatureMessage) { m.Signature.A.Add(m.Signature.A, pk.N) }), run.attrs, b, run)
+						deviate("sig.A+2N", mk(func(m *gabi.IssueSignatureMessage) { m.Signature.A.Add(m.Signature.A, new(gbig.Int).Lsh(pk.N, 1)) }), run.attrs, b, run)
+						deviate("sig.A-N", mk(func(m *gabi.IssueSignatureMessage) { m.Signature.A.Sub(m.Signature.A, pk.N) }), run.attrs, b, run)
+						deviate("sig.E+ord-like(E+N)", mk(func(m *gabi.IssueSignatureMessage) { m.Signature.E.Add(m.Signature.E, pk.N) }), run.attrs, b, run)
 						deviate("sig.A=nil", mk(func(m *gabi.IssueSignatureMessage) { m.Signature.A = nil }), run.attrs, b, run)
 						deviate("sig.E=nil", mk(func(m *gabi.IssueSignatureMessage) { m.Signature.E = nil }), run.attrs, b, run)
 						deviate("sig.V=nil", mk(func(m *gabi.IssueSignatureMessage) { m.Signature.V = nil }), run.attrs, b, run)
